@@ -13,6 +13,7 @@ import (
 
 	pb "github.com/google/go-tdx-guest/proto/tdx"
 	"github.com/google/go-tdx-guest/validate"
+	"google.golang.org/protobuf/proto"
 )
 
 func init() {
@@ -465,6 +466,91 @@ func c08(x *mon.Ctx) {
 		x.Require("exact/"+n, 6, 8, 20)
 	}
 	x.Require("xfam-bit", 12, 100, 128)
+	// ---- allow-list entries that CONTAIN the quote's MR_TD across an entry boundary (A ends with its first c bytes, B starts with
+	//      the rest): membership is per entry
+	for h := 0; h < x.Pick(24, 400); h++ {
+		r := x.Rand(fmt.Sprint("straddle", h))
+		qp := policyQuote(r)
+		if h%3 == 0 {
+			for i := 136; i < 184; i++ {
+				qp.Body[i] = byte(h) // constant-byte MR_TD
+			}
+		}
+		raw := qp.Bytes()
+		q, _ := ref.ParseQuote(raw)
+		c := []int{1, 8, 24, 47, 1 + r.Intn(47)}[h%5]
+		a, b := make([]byte, 48), make([]byte, 48)
+		r.Read(a)
+		r.Read(b)
+		copy(a[48-c:], q.MrTd[:c])
+		copy(b, q.MrTd[c:])
+		a[0], b[47] = ^q.MrTd[0], ^q.MrTd[47] // neither entry is the MR_TD itself
+		lists := [][][]byte{{a, b}, {b, a, b}, {a, b, a}}
+		pol := ref.Policy{AnyMrTd: lists[h%3]}
+		param := fmt.Sprintf("cut%d/list%d#%d", c, h%3, h)
+		m := mon.BuildMessage(q)
+		var e error
+		pv, st := mon.Guard(func() { e = validate.TdxQuote(m, deepCopyOptions(toOptions(&pol))) })
+		if pv != "" {
+			x.Violation("any-mr-td-straddle", param, "panic: "+pv+"\n"+st, "none", param)
+		} else if e == nil {
+			x.Violation("any-mr-td-straddle", param, "validation succeeded although MR_TD equals none of the allowed values (it only appears across the boundary of two adjacent entries)", "none", param)
+		}
+		x.Note("any-mr-td-straddle", param, e == nil, false, pv == "")
+	}
+	x.Require("any-mr-td-straddle", 0, 24, 24)
+	// ---- the caller edits a validated message IN PLACE (a field shortened, emptied, lengthened) and validates it again: whatever
+	//      was concluded about the object before, the second call judges what the object is now (an error, never a crash)
+	{
+		r := x.Rand("in-place")
+		qp := policyQuote(r)
+		raw := qp.Bytes()
+		q, _ := ref.ParseQuote(raw)
+		type ed struct {
+			name string
+			f    func(m *pb.QuoteV4)
+		}
+		eds := []ed{
+			{"tee_tcb_svn-emptied", func(m *pb.QuoteV4) { m.TdQuoteBody.TeeTcbSvn = m.TdQuoteBody.TeeTcbSvn[:0] }},
+			{"tee_tcb_svn-1-byte", func(m *pb.QuoteV4) { m.TdQuoteBody.TeeTcbSvn = m.TdQuoteBody.TeeTcbSvn[:1] }},
+			{"qe_svn-1-byte", func(m *pb.QuoteV4) { m.Header.QeSvn = m.Header.QeSvn[:1] }},
+			{"pce_svn-emptied", func(m *pb.QuoteV4) { m.Header.PceSvn = nil }},
+			{"xfam-4-bytes", func(m *pb.QuoteV4) { m.TdQuoteBody.Xfam = m.TdQuoteBody.Xfam[:4] }},
+			{"td_attributes-emptied", func(m *pb.QuoteV4) { m.TdQuoteBody.TdAttributes = nil }},
+			{"mr_td-47-bytes", func(m *pb.QuoteV4) { m.TdQuoteBody.MrTd = m.TdQuoteBody.MrTd[:47] }},
+			{"rtmrs-3-entries", func(m *pb.QuoteV4) { m.TdQuoteBody.Rtmrs = m.TdQuoteBody.Rtmrs[:3] }},
+			{"rtmr2-emptied", func(m *pb.QuoteV4) { m.TdQuoteBody.Rtmrs[2] = nil }},
+			{"report_data-63-bytes", func(m *pb.QuoteV4) { m.TdQuoteBody.ReportData = m.TdQuoteBody.ReportData[:63] }},
+			{"body-removed", func(m *pb.QuoteV4) { m.TdQuoteBody = nil }},
+			{"header-removed", func(m *pb.QuoteV4) { m.Header = nil }},
+			{"mr_td-bit-flipped", func(m *pb.QuoteV4) { m.TdQuoteBody.MrTd[5] ^= 4 }},
+			{"qe_vendor_id-bit-flipped", func(m *pb.QuoteV4) { m.Header.QeVendorId[0] ^= 1 }},
+		}
+		pols := []ref.Policy{{}, {MinTeeTcbSvn: make([]byte, 16), MinQeSvn: 1, MinPceSvn: 1, MrTd: q.MrTd, QeVendorID: q.QeVendorID, Rtmrs: [][]byte{q.Rtmrs[0], q.Rtmrs[1], q.Rtmrs[2], q.Rtmrs[3]}, ReportData: q.ReportData, Xfam: q.Xfam, TdAttributes: q.TdAttributes}}
+		for pi := range pols {
+			for _, e := range eds {
+				m := mon.BuildMessage(q)
+				one := deepCopyOptions(toOptions(&pols[pi]))
+				var e1, e2, ef error
+				param := fmt.Sprintf("%s/policy%d", e.name, pi)
+				pv, st := mon.Guard(func() {
+					e1 = validate.TdxQuote(m, one)
+					e.f(m)
+					e2 = validate.TdxQuote(m, one)
+					ef = validate.TdxQuote(proto.Clone(m).(*pb.QuoteV4), deepCopyOptions(toOptions(&pols[pi])))
+				})
+				switch {
+				case pv != "":
+					x.Violation("in-place-edit-after-validation", param, "validating a message that was edited in place after an earlier validation panics: "+pv+"\n"+st, "none", param)
+				case (e2 == nil) != (ef == nil):
+					x.Violation("in-place-edit-after-validation", param, fmt.Sprintf("after the in-place edit the message is judged accepted=%v (%v); an identical copy under fresh options is judged accepted=%v (%v)", e2 == nil, e2, ef == nil, ef), "none", param)
+				}
+				_ = e1
+				x.Note("in-place-edit-after-validation", param, e2 == nil, false, pv == "")
+			}
+		}
+		x.Require("in-place-edit-after-validation", 0, 20, 28)
+	}
 	// ---- ONE options value, never re-assigned, used for a sequence of different quotes: each verdict must be the verdict under
 	//      an untouched copy (an options value with "do not care" entries must not learn from the quotes it sees)
 	for h := 0; h < x.Pick(40, 2000); h++ {
